@@ -683,9 +683,14 @@ func c13GateChainX(c *Ctx, bed *px.Bed, j c13Job, warm bool) {
 	}
 	for _, s := range all {
 		fs := cl.OnStream(s.st)
-		code, _, ok := primitive.ErrorCode(0), "", false
+		code, msg, ok := primitive.ErrorCode(0), "", false
 		if len(fs) == 1 {
-			code, _, ok = c13ErrorOf(fs[0], "")
+			code, msg, ok = c13ErrorOf(fs[0], "")
+		}
+		if len(fs) == 1 && ok && code == primitive.ErrorCodeProtocolError && !strings.Contains(msg, strconv.Itoa(int(s.v))) {
+			// every refusal names the version of the frame it refuses, whatever was refused on this connection before
+			r.Violate(mon.Violation{Signature: fmt.Sprintf("C13/gate/chain-error-does-not-name-version/v=%s/max=%s", c13VerName(s.v), c13VerName(max)) + sfx, Scenario: scen,
+				Detail: fmt.Sprintf("rejected frames of several versions pipelined on one connection: the protocol error for the %s %s frame on stream %d must name its version (%d) so drivers can downgrade; message: %q", c13VerName(s.v), c13OpName(s.op), s.st, int(s.v), msg)})
 		}
 		if len(fs) != 1 || !ok || code != primitive.ErrorCodeProtocolError {
 			r.Violate(mon.Violation{Signature: fmt.Sprintf("C13/gate/chain/v=%s/max=%s/frames=%s", c13VerName(s.v), c13VerName(max), c13Kinds(fs)) + sfx, Scenario: scen,
